@@ -86,6 +86,7 @@ class Cfg:
         self.annotation_rate = 0.08   # how often an operator of the tree is a user annotation instead
         self.stream_zero = False   # one of the streams is stream 0 (the null stream, as ROCm / Triton traces report it)
         self.deep_queue = 0        # that many launches enqueued on one stream before its first kernel starts
+        self.early_record = 0.15   # how often a CUDA event is recorded on a stream before anything was launched in the trace
         self.sync_ties = False     # the second thread enqueues work while the first is blocked; it starts when the call returns
         self.__dict__.update(kw)
 
@@ -323,17 +324,20 @@ class RankSim:
         self.tl_syncs.append((waits[0] if len(waits) == 1 else None, t, end))
         return end
 
-    def event_op(self, t: int, tid: int, streams: List[int]) -> int:
+    def event_op(self, t: int, tid: int, streams: List[int], force: Optional[str] = None) -> int:
         """CUDA-event based synchronisation. Host calls here have positive duration and start one grid unit
         after `t`, so that launches, records and waits of one thread are strictly ordered in time."""
         rng, g = self.rng, self.g
-        if not any(self.last_end[x] > 0 for x in streams) and rng.random() < 0.85:
+        if not any(self.last_end[x] > 0 for x in streams) and rng.random() >= self.cfg.early_record:
             return self.launch(t, tid, streams)        # nothing to record yet: enqueue some work first
         t0 = t + g
         d = g * rng.choice([1, 1, 2, 3])
         c = self.next_corr()
         known = [e for e in self.cuda_events if e["t"] <= t0]
         kind = rng.choice(["record", "wait", "wait", "wait", "esync", "esync", "query"]) if known else "record"
+        if force and known:
+            kind = force
+        early = not any(self.last_end[x] > 0 for x in streams)
         hargs = {"correlation": c, "External id": c + 1, "cbid": 135}
         if kind == "record":
             used = [x for x in streams if self.last_end[x] > 0]
@@ -341,6 +345,11 @@ class RankSim:
             self.x("cuda_runtime", "cudaEventRecord", self.host_pid, tid, t0, d, hargs)
             self.cuda_events.append({"corr": c, "stream": s, "done": max(self.last_end[s], self.wait_until.get(s, 0)), "t": t0})
             self.tl_records[s].append(t0)
+            if early and not self.second_thread and rng.random() < 0.6:
+                # an event recorded before anything was enqueued stands for no work at all: the trace's first launch
+                # goes to the same stream and a wait for the event follows while that kernel is still running
+                t1 = self.launch(t0 + d + g * rng.choice([0, 1]), tid, [s])
+                return self.event_op(t1, tid, streams, force=rng.choice(["esync", "wait"]))
             return t0 + d
         if kind == "query":
             self.x("cuda_runtime", "cudaEventQuery", self.host_pid, tid, t0, d, hargs)
